@@ -26,6 +26,20 @@ pub type Loc = Vec<Step>;
 
 pub const MAX_SAFE: i64 = 9007199254740991;
 
+/// how the `serde_json::Map` of this build iterates its members: probed, not assumed, because cargo
+/// unifies features - the library under test (or this harness, in its second build) may have switched
+/// `preserve_order` on, and then insertion order *is* "the document's own member order"
+pub fn value_keeps_insertion_order() -> bool {
+    static PROBE: std::sync::OnceLock<bool> = std::sync::OnceLock::new();
+    *PROBE.get_or_init(|| {
+        let mut m = Map::new();
+        m.insert("b".to_string(), Value::Null);
+        m.insert("a".to_string(), Value::Null);
+        m.insert("c".to_string(), Value::Null);
+        m.keys().map(|k| k.as_str()).collect::<Vec<_>>() == ["b", "a", "c"]
+    })
+}
+
 impl J {
     pub fn to_value(&self) -> Value {
         match self {
@@ -80,9 +94,28 @@ impl J {
                     }
                 }
                 // with serde_json's `preserve_order` the Value keeps insertion order: nothing to sort
-                if !cfg!(feature = "preserve_order") {
+                if !value_keeps_insertion_order() {
                     out.sort_by(|a, b| a.0.cmp(&b.0));
                 }
+                J::Obj(out)
+            }
+            x => x.clone(),
+        }
+    }
+    /// members sorted by name whatever the map of this build does (for data types that keep them sorted)
+    pub fn sorted_by_name(&self) -> J {
+        match self {
+            J::Arr(a) => J::Arr(a.iter().map(|x| x.sorted_by_name()).collect()),
+            J::Obj(m) => {
+                let mut out: Vec<(String, J)> = vec![];
+                for (k, v) in m {
+                    if let Some(e) = out.iter_mut().find(|(k2, _)| k2 == k) {
+                        e.1 = v.sorted_by_name();
+                    } else {
+                        out.push((k.clone(), v.sorted_by_name()));
+                    }
+                }
+                out.sort_by(|a, b| a.0.cmp(&b.0));
                 J::Obj(out)
             }
             x => x.clone(),
